@@ -780,7 +780,7 @@ def run(pid, tier, seed, replay=None):
     if replay is not None:
         cases = [replay['case']]
     else:
-        n = (500 if tier == "quick" else 5000) * ck.scale()
+        n = (500 if tier == "quick" else 4000) * ck.scale()
         cases = []
         for i in range(n):
             r = ck.rng.random()
